@@ -41,6 +41,11 @@ func basicIntKind(t types.Type) (intKind, bool) {
 	return intKind{}, false
 }
 
+func isSignedT(t types.Type) bool {
+	k, ok := basicIntKind(t)
+	return !ok || k.signed
+}
+
 func isString(t types.Type) bool {
 	b, ok := t.Underlying().(*types.Basic)
 	return ok && b.Info()&types.IsString != 0
@@ -346,6 +351,9 @@ func (e *Exec) equals(fr *frame, t types.Type, x, y Value) *Term {
 		yp, ok := y.(Ptr)
 		if !ok {
 			e.unsupported(fr, "== between pointer and %s", describe(y))
+		}
+		if x.symArr != nil || yp.symArr != nil {
+			e.unsupported(fr, "comparison of symbolic element pointers")
 		}
 		return mkBool(x.p == yp.p)
 	case Slice:
@@ -670,19 +678,23 @@ func (e *Exec) slice(fr *frame, instr *ssa.Slice, x, lo, hi, max Value) Value {
 	}
 	l, h, m := 0, length, capacity
 	// Evaluate bounds: symbolic bounds are checked symbolically then concretised.
-	get := func(v Value, def int, what string) (int, *Term) {
+	get := func(v Value, def int, sv ssa.Value) (int, *Term) {
 		if v == nil {
 			return def, nil
 		}
 		t := v.(*Term)
+		signed := isSignedT(sv.Type())
 		if t.IsConst() {
-			return int(sx(t.val, t.sort.W)), nil
+			if signed {
+				return int(sx(t.val, t.sort.W)), nil
+			}
+			return int(t.val), nil
 		}
-		return 0, t
+		return 0, e.ctx.Resize(t, 64, signed)
 	}
-	lC, lT := get(lo, 0, "low")
-	hC, hT := get(hi, length, "high")
-	mC, mT := get(max, capacity, "max")
+	lC, lT := get(lo, 0, instr.Low)
+	hC, hT := get(hi, length, instr.High)
+	mC, mT := get(max, capacity, instr.Max)
 	if hi == nil && isStr {
 		hC = length
 	}
@@ -728,17 +740,20 @@ func (e *Exec) slice(fr *frame, instr *ssa.Slice, x, lo, hi, max Value) Value {
 
 // indexConcrete bounds-checks idx against n and returns a concrete index
 // (forking over feasible values when symbolic).
-func (e *Exec) indexConcrete(fr *frame, idx Value, n int) int {
+func (e *Exec) indexConcrete(fr *frame, idx Value, n int, signed bool) int {
 	t := idx.(*Term)
 	if t.IsConst() {
-		i := sx(t.val, t.sort.W)
+		i := int64(t.val)
+		if signed {
+			i = sx(t.val, t.sort.W)
+		}
 		if i < 0 || i >= int64(n) {
 			e.goPanicf(fr, "runtime error: index out of range [%d] with length %d", i, n)
 		}
 		return int(i)
 	}
 	c := e.ctx
-	t64 := c.Resize(t, 64, true) // index operands are int-typed or unsigned narrower
+	t64 := c.Resize(t, 64, signed)
 	inRange := c.And(c.Cmp(OpSLe, c.Const(64, 0), t64), c.Cmp(OpSLt, t64, c.Const(64, uint64(n))))
 	if !e.branch(fr, inRange) {
 		e.goPanicf(fr, "runtime error: index out of range [symbolic] with length %d", n)
@@ -747,18 +762,21 @@ func (e *Exec) indexConcrete(fr *frame, idx Value, n int) int {
 }
 
 // indexRead reads cells[idx]; symbolic idx over scalar cells builds an ite chain.
-func (e *Exec) indexRead(fr *frame, cells []Value, idx Value) Value {
+func (e *Exec) indexRead(fr *frame, cells []Value, idx Value, signed bool) Value {
 	t := idx.(*Term)
 	n := len(cells)
 	if t.IsConst() {
-		i := sx(t.val, t.sort.W)
+		i := int64(t.val)
+		if signed {
+			i = sx(t.val, t.sort.W)
+		}
 		if i < 0 || i >= int64(n) {
 			e.goPanicf(fr, "runtime error: index out of range [%d] with length %d", i, n)
 		}
 		return cells[i]
 	}
 	c := e.ctx
-	t64 := c.Resize(t, 64, true)
+	t64 := c.Resize(t, 64, signed)
 	inRange := c.And(c.Cmp(OpSLe, c.Const(64, 0), t64), c.Cmp(OpSLt, t64, c.Const(64, uint64(n))))
 	if !e.branch(fr, inRange) {
 		e.goPanicf(fr, "runtime error: index out of range [symbolic] with length %d", n)
@@ -787,10 +805,13 @@ func (e *Exec) iteChain(idx *Term, cells []Value) *Term {
 	return res
 }
 
-func (e *Exec) indexStr(fr *frame, s Str, idx Value) Value {
+func (e *Exec) indexStr(fr *frame, s Str, idx Value, signed bool) Value {
 	t := idx.(*Term)
 	if t.IsConst() {
-		i := sx(t.val, t.sort.W)
+		i := int64(t.val)
+		if signed {
+			i = sx(t.val, t.sort.W)
+		}
 		if i < 0 || i >= int64(s.Len()) {
 			e.goPanicf(fr, "runtime error: index out of range [%d] with length %d", i, s.Len())
 		}
@@ -801,7 +822,7 @@ func (e *Exec) indexStr(fr *frame, s Str, idx Value) Value {
 	for i, x := range ts {
 		cells[i] = x
 	}
-	return e.indexRead(fr, cells, idx)
+	return e.indexRead(fr, cells, idx, signed)
 }
 
 // ---- type assertion ----
@@ -928,7 +949,7 @@ func (e *Exec) lookup(fr *frame, instr *ssa.Lookup, x, idx Value) Value {
 		}
 		return v
 	case Str:
-		return e.indexStr(fr, x, idx)
+		return e.indexStr(fr, x, idx, isSignedT(instr.Index.Type()))
 	}
 	e.unsupported(fr, "lookup on %s", describe(x))
 	return nil
